@@ -325,6 +325,10 @@ class Node:
         received request messages."""
 
         rp, wp = os.pipe()
+        # the node's own thread writes wake-ups as well (when it dials a peer,
+        # when a write fails): a write that blocks on a full pipe would
+        # deadlock it, as it is the only reader
+        os.set_blocking(wp, False)
         self.interrupt_read = rp
         self.interrupt_write = wp
         self.logger = logging.getLogger("diameter.node")
@@ -704,27 +708,32 @@ class Node:
 
             for rsock in ready_r:
                 if rsock == self.interrupt_read:
-                    conn_id = os.read(self.interrupt_read, 6).hex()
-                    conn = self.connections.get(conn_id)
-                    if conn:
-                        self.connection_logger.debug(f"{conn} wants attention")
-                        if conn.state == PEER_CLOSED:
-                            self.close_connection_socket(
-                                conn, DISCONNECT_REASON_CLEAN_DISCONNECT)
-                        elif (not conn.has_queued_messages and
-                                len(conn.write_buffer) == 0 and
-                                conn.state == PEER_CLOSING):
-                            # in this order: a message counts as queued until
-                            # the writer has put it into the buffer
+                    # every wake-up is one connection ident of 6 bytes; as many
+                    # as are waiting are taken in one go, so that a busy
+                    # connection cannot fill the pipe faster than it is read
+                    wakeups = os.read(self.interrupt_read, 6 * 1024)
+                    for pos in range(0, len(wakeups), 6):
+                        conn_id = wakeups[pos:pos + 6].hex()
+                        conn = self.connections.get(conn_id)
+                        if conn:
+                            self.connection_logger.debug(f"{conn} wants attention")
+                            if conn.state == PEER_CLOSED:
+                                self.close_connection_socket(
+                                    conn, DISCONNECT_REASON_CLEAN_DISCONNECT)
+                            elif (not conn.has_queued_messages and
+                                    len(conn.write_buffer) == 0 and
+                                    conn.state == PEER_CLOSING):
+                                # in this order: a message counts as queued
+                                # until the writer has put it into the buffer
+                                self.connection_logger.debug(
+                                    f"{conn} in CLOSING state and no more bytes "
+                                    f"to send, closing socket")
+                                self.close_connection_socket(
+                                    conn, DISCONNECT_REASON_CLEAN_DISCONNECT)
+                        else:
                             self.connection_logger.debug(
-                                f"{conn} in CLOSING state and no more bytes to "
-                                f"send, closing socket")
-                            self.close_connection_socket(
-                                conn, DISCONNECT_REASON_CLEAN_DISCONNECT)
-                    else:
-                        self.connection_logger.debug(
-                            f"interrupt from peer connection {conn_id}, "
-                            f"which has already gone away")
+                                f"interrupt from peer connection {conn_id}, "
+                                f"which has already gone away")
                     continue
 
                 if rsock in self.tcp_sockets:
